@@ -218,6 +218,27 @@ def susp_case(rng, bits=8):
     return "api " + " ".join(map(str, L)), "susp-%d-%d-k%d" % (bits, nc, kind)
 
 
+def bimg_case(rng, bits):
+    """multi-scan file (four scan scripts) decoded in buffered-image mode with the documented loops"""
+    nc = rng.choice([1, 3, 3, 4])
+    w, h = rng.range(9, 70), rng.range(9, 60)
+    kind = rng.choice([1, 2, 2, 3, 5, 5, 5, 0])
+    M = (1 << bits) - 1
+    p1 = rng.range(0, M) if kind == 0 else rng.choice([0, 2, 10, 50])
+    L = [bits, nc, w, h, kind, p1, rng.below(1 << 40)]
+    if rng.chance(3, 4):
+        L += [rng.choice([25, 50, 75, 85, 92, 100, rng.range(1, 100)]), 0, -1, -1, -1, -1]
+    else:
+        nt = rng.range(1, min(4, nc))
+        L += [-1, nt]
+        for _ in range(nt):
+            L += gen_qtable(rng, bits, rng.choice(["low", "low", "mix", "pow2"]))
+        L += [rng.below(nt) for _ in range(4)]
+    script, mode = rng.below(4), rng.choice([0, 0, 1, 2])
+    L += [script, mode, rng.below(2), rng.below(1 << 40)]
+    return "bimg " + " ".join(map(str, L)), "bimg-%d-%d-s%d-m%d" % (bits, nc, script, mode)
+
+
 def seq_case(rng, bits):
     """2..5 images on ONE compression object, quantisation tables changed in between (every kind of
     subset of the 64 entries, three ways of installing them), abbreviated streams, one decoder"""
@@ -344,16 +365,20 @@ def check_unit(ctx, fl, cfgline, bits, line, kind, meta, impl, eps):
 
 def check_api(ctx, fl, line, kind, impl, eps):
     rep = {"stream": "api", "flavour": fl, "case": line, "impl": impl[:3000]}
-    if not impl.startswith("api ok "):
+    bimg = line.startswith("bimg ")
+    if not impl.startswith("bimg ok " if bimg else "api ok "):
         ctx.violation("compress/decompress round trip failed: " + impl[:60], rep, signature="api-fail:" + impl[:12])
         return None
-    parts = impl[7:].split(" |")
+    parts = impl[8 if bimg else 7:].split(" |")
     hx, blk = parts[0], parts[1]
     nsusp = int(parts[2].split("=")[1]) if len(parts) > 2 and "susp=" in parts[2] else None
     prec, tabs, comps = parse_hdr(hx)
     f = line.split()
     const = f[5] == "0"
     worst = 0.0
+    if bimg and len(parts) > 2 and "same=0" in parts[2]:
+        ctx.violation("buffered-image mode: the final output pass differs from the one-shot decode of the same file (%s)" % parts[2].strip(),
+                      rep, signature="bimg-final-differs")
     if nsusp is not None:
         eps["suspensions"] = eps.get("suspensions", 0) + nsusp
         eps["susp_cases_with_suspension"] = eps.get("susp_cases_with_suspension", 0) + (1 if nsusp else 0)
@@ -369,8 +394,9 @@ def check_api(ctx, fl, line, kind, impl, eps):
         eps["ratio"] = max(eps["ratio"], rms / bound)
         eps["excess"] = max(eps["excess"], rms - math.sqrt(sum((x / 2.0) ** 2 for x in q) / 64.0))
         if rms > bound:
-            ctx.violation("component %d block (%d,%d): RMS error %.3f > bound %.3f from the DQT written" % (c, bx, by, rms, bound),
-                          rep, signature="api-block-rms")
+            ctx.violation("%scomponent %d block (%d,%d): RMS error %.3f > bound %.3f from the DQT written" % (
+                              "buffered-image final pass: " if bimg else "", c, bx, by, rms, bound),
+                          rep, signature="bimg-block-rms" if bimg else "api-block-rms")
             break
         if const and ma > -(-q[0] // 16) + 1:
             ctx.violation("constant image: component %d block (%d,%d) deviates by %d > ceil(%d/16)+1" % (c, bx, by, ma, q[0]),
@@ -465,8 +491,8 @@ def run(ctx):
                 l = l.strip()
                 if not l or l.startswith("#"):
                     continue
-                if l.startswith("api ") or l.startswith("seq "):
-                    capi.append((l, "corpus-" + l[:3]))
+                if l.startswith(("api ", "seq ", "bimg ")):
+                    capi.append((l, "corpus-" + l.split()[0]))
                 else:
                     b, rest = l.split(" ", 1)
                     cunit[int(b)].append(rest)
@@ -577,6 +603,8 @@ def run(ctx):
                 acases.append(susp_case(arng))
             for i in range(ctx.n(300, 4000)):
                 acases.append(seq_case(arng, 12 if i % 4 == 3 else 8))
+            for i in range(ctx.n(360, 5000)):
+                acases.append(bimg_case(arng, 12 if i % 4 == 3 else 8))
         for fl in flavours:
             exe = ctx.cc("c07_api", ["c07_api.c"], fl, libs=("jpeg",))
             res = run_stream(ctx, exe, [c[0] for c in acases], "c07 API harness " + fl, {"stream": "api", "flavour": fl})
